@@ -196,7 +196,7 @@ func sweepC01(tier string, emit func(*CaseC01)) {
 	emit(bigListC01(66000, 20, 20))
 	// round list lengths (block / batch sizes inside an implementation): n-4 filler points + 4 -> 1024, 2048, 4096 and neighbours
 	for _, n := range []int{1020, 1019, 1021, 2044, 4092, 508, 252} {
-		emit(bigListC01(n, 18, 25))
+		emit(allProcs(bigListC01(n, 18, 25)))
 	}
 	if tier != "quick" {
 		emit(bigListC01(140000, 35, 0))
